@@ -191,7 +191,7 @@ func (g *Gen) nonNil(t reflect.Type, depth int) reflect.Value {
 		if t.NumMethod() == 0 {
 			switch g.R.Intn(4) {
 			case 0:
-				v.Set(reflect.ValueOf(90000 + g.tok()))
+				v.Set(reflect.ValueOf(90000 + g.Base + g.tok()))
 			case 1:
 				v.Set(reflect.ValueOf(g.tag()))
 			case 2:
